@@ -17,7 +17,8 @@ def run(chk, props=None, prop=None, bias=None):
     n = 1000 if chk.tier == 'quick' else 20000
     b = bias or BIAS
     core.e1_flow(chk, 'scen_server', 'ledger', {prop},
-                 lambda rng: scen_server.gen_case(rng, chk.tier, rng.choice(b)), n, keyfn=keyfn)
+                 lambda rng: scen_server.gen_case(rng, chk.tier, rng.choice(b)), n, keyfn=keyfn,
+                 corpus=scen_server.corpus())
     chk.cov['rule'] = ('cases = random (Server or AsyncServer, capacity, worker threads, 2-8 caller threads / asyncio tasks issuing call() with/without '
                        'backpressure and finite or unbounded deadlines, stream() callers with early close, failing '
                        'requests, service durations, chooser incl. early timer firing, seed) run on the real Server '
